@@ -307,6 +307,9 @@ class TradingEnv(gymnasium.Env):
                 "The current episode has ended. To start a new episode use "
                 "TradingEnv.reset()."
             )
+        # The clock is shared by all contracts in the process: make sure it is
+        # this environment's time before resolving e.g. futures chains.
+        AbstractContract.now = self._now
         self._queue_actions.appendleft(action)
         action = self._queue_actions.pop()
         self._process_latent_events()
